@@ -28,10 +28,12 @@ const chanPkgA = `package pa
 
 import "scratch/mon"
 
-func ident(x int) int { return x }
+// bump is the function mapped over the channel: it shifts the item id, so that applying it zero or
+// two times shows in the received ids, and counts its applications.
+func bump(x int) int { mon.FmapCalls.Add(1); return x + mon.FmapShift }
 
 func init() {
-	mon.RegComb(&mon.Comb{Name: "fmap-chan", Fmap: func(in <-chan int) <-chan int { return deriveFmap(ident, in) }})
+	mon.RegComb(&mon.Comb{Name: "fmap-chan", Fmap: func(in <-chan int) <-chan int { return deriveFmap(bump, in) }})
 	mon.RegComb(&mon.Comb{Name: "join-recvchan-of-chan", JoinChanR: func(in <-chan (<-chan int)) <-chan int { return deriveJoin(in) }})
 	mon.RegComb(&mon.Comb{Name: "join-slice-of-recvchan", JoinSliceR: func(in []<-chan int) <-chan int { return deriveJoinS(in) }})
 	mon.RegComb(&mon.Comb{Name: "join-variadic-2", JoinVar2: func(a, b chan int) <-chan int { return deriveJoinV2(a, b) }})
